@@ -310,3 +310,49 @@ def run_concurrently(ctx, fns):
         ctx.baton = old
     ctx.count("concurrent_callers")
     return results
+
+
+# --------------------------------------------------------------------------
+# injected allocation failure in the NumPy kernels (fault seam: speckit.core._gather_segments)
+# --------------------------------------------------------------------------
+
+class AllocFault:
+    """One-shot MemoryError at the k-th next segment gather of the NumPy backend (the place where the (K, L) blocks are
+    allocated).  On the unchanged library the error simply propagates to the caller; whatever a library does about it,
+    results it returns must still be right and the caller's record must stay untouched."""
+
+    def __init__(self):
+        self.countdown = None
+        self.fired = 0
+        self._orig = None
+
+    def __enter__(self):
+        from speckit import core
+
+        self._core = core
+        self._orig = getattr(core, "_gather_segments", None)
+        if self._orig is not None:
+            fault = self
+
+            def gather(*a, **k):
+                if fault.countdown is not None:
+                    fault.countdown -= 1
+                    if fault.countdown <= 0:
+                        fault.countdown = None
+                        fault.fired += 1
+                        raise MemoryError("injected: unable to allocate the segment block")
+                return fault._orig(*a, **k)
+
+            core._gather_segments = gather
+        return self
+
+    def arm(self, k=1):
+        self.countdown = int(k)
+
+    def disarm(self):
+        self.countdown = None
+
+    def __exit__(self, *exc):
+        if self._orig is not None:
+            self._core._gather_segments = self._orig
+        return False
